@@ -430,10 +430,10 @@ func c20CheckCluster(c *fw.Ctx, ds int) {
 
 func init() {
 	fw.Register(&fw.Prop{
-		ID:        "C20",
-		Level:     "exploration",
-		NoThreads: true,
-		Rule: "(1) codec: every Validate()-passing expression tree of C05's generator (depth <=2 quick / <=3 thorough: aggregates plain and BOUNDED, PERCENTILE, IF with a dim condition, SHIFT, unary math, all binary ops) as a core.Field through rpc.Codec inside RemoteQueryResult.Fields: same name, text, width, validity, shift, constness, and behavioural equality (identical accumulator bytes and Get values for every update sequence of length <=3 over 8 updates; decoded expression merging original states); (2) values: every scalar type bytemap supports as dim and value through Insert and FlatRow, raw series, QueryStats, QueryMetaData, Query with and without deadline, Follow with offsets, Point; (3) end to end over real gRPC on 127.0.0.1: 20 queries × 3 datasets embedded vs rpc client/server (rows, order, field names, window, resolution), and the same through a follower answering on behalf of the leader via ProcessRemoteQuery (pushdown and non-pushdown) vs a standalone DB; non-trivial = expression with behaviour checked / query with rows",
+		ID:          "C20",
+		Level:       "exploration",
+		NoThreads:   true,
+		Rule:        "(1) codec: every Validate()-passing expression tree of C05's generator (depth <=2 quick / <=3 thorough: aggregates plain and BOUNDED, PERCENTILE, IF with a dim condition, SHIFT, unary math, all binary ops) as a core.Field through rpc.Codec inside RemoteQueryResult.Fields: same name, text, width, validity, shift, constness, and behavioural equality (identical accumulator bytes and Get values for every update sequence of length <=3 over 8 updates; decoded expression merging original states); (2) values: every scalar type bytemap supports as dim and value through Insert and FlatRow, raw series, QueryStats, QueryMetaData, Query with and without deadline, Follow with offsets, Point; (3) end to end over real gRPC on 127.0.0.1: 20 queries × 3 datasets embedded vs rpc client/server (rows, order, field names, window, resolution), and the same through a follower answering on behalf of the leader via ProcessRemoteQuery (pushdown and non-pushdown) vs a standalone DB; non-trivial = expression with behaviour checked / query with rows",
 		Assumptions: []string{"handler availability over RPC (a partition without a connected handler) is C13's subject: such runs are marked incomplete, not violations"},
 		Shards:      func(tier string) int { return 8 },
 		Budget:      func(tier string) time.Duration { return 30 * time.Minute },
